@@ -154,10 +154,11 @@ def run(m, chk):
     r.commit_last("COMMIT-LAST", "curves.Curve.knot_insert")
     r.commit_last("COMMIT-LAST", "curves.BaseCurve.apply")
     no_inplace_elem(r, chk, ["curves.BaseCurve.apply", "curves.Curve.knot_insert"])
-    from .extra import mult_keep, precheck_weights
+    from .extra import mult_keep, precheck_len, precheck_weights
 
     precheck_weights(r, chk, ["curves.BaseCurve.apply", "curves.Curve.knot_insert"])
-    mult_keep(r, chk, ["curves.Curve.knot_insert", "heavy.Operations.knot_insert", "heavy.Operations.one_knot_insert", "heavy.ImmutableKnotVector.__add__", "knotspace.KnotVector.insert", "knotspace.KnotVector.__iadd__"], floor=4)
+    precheck_len(r, chk, "curves.BaseCurve.apply")
+    mult_keep(r, chk, ["curves.Curve.knot_insert", "heavy.Operations.knot_insert", "heavy.Operations.one_knot_insert", "heavy.ImmutableKnotVector.__add__", "knotspace.KnotVector.insert", "knotspace.KnotVector.__iadd__"], floor=4, filtered=True)
     rule_d(r, chk, ["curves.Curve.knot_insert"], floor=4)
     committed_deps(r, chk, "curves.Curve.knot_insert", CURVE_FIELDS[1], ["nodes", "self.knotvector", "self.ctrlpoints", "self.weights"])
     committed_deps(r, chk, "curves.Curve.knot_insert", CURVE_FIELDS[2], ["nodes", "self.knotvector", "self.weights"])
